@@ -15,6 +15,12 @@ fn chain_case(rng: &mut Rng, rec: &mut Rec) {
     if http10_method(method) && rng.chance(1, 5) {
         cfg.ver = Ver::V10;
     }
+    if rng.chance(1, 3) {
+        // the caller spelled out the Host of the first request (one more header a redirect has to deal with)
+        let h = host_of(&split_uri(&cfg.uri));
+        cfg.orig.push(("host".into(), h.into_bytes()));
+        rec.cov("original/explicit-host");
+    }
     cfg.orig.push(("x-keep".into(), b"t0-keep".to_vec()));
     cfg.orig.push(("authorization".into(), b"t0-Bearer-secret".to_vec()));
     cfg.orig.push(("cookie".into(), b"t0-session=original".to_vec()));
@@ -52,6 +58,11 @@ fn chain_case(rng: &mut Rng, rec: &mut Rec) {
         if hop_i > 0 && rng.chance(1, 2) {
             let _ = flow.header("cookie", format!("t{}-jar=fresh", hop_i));
         }
+        if hop_i > 0 && !needs_body(eff.method) && rng.chance(1, 5) {
+            // a body forced onto the redirected request: whatever framing it gets is its own
+            flow.send_body_despite_method();
+            rec.cov("redirected/despite-method");
+        }
         rec.call();
         let (head, followed) = match follow_one_head(flow, &cfg, &eff, &original, &hop, policy) {
             Ok(v) => v,
@@ -78,6 +89,10 @@ fn chain_case(rng: &mut Rng, rec: &mut Rec) {
         }
     }
     // the last created flow: write its head too
+    if !needs_body(eff.method) && rng.chance(1, 3) {
+        flow.send_body_despite_method();
+        rec.cov("redirected/despite-method");
+    }
     let mut f = flow.proceed();
     rec.call();
     match write_head_big(&mut f) {
@@ -152,7 +167,7 @@ impl Property for P {
         "C13"
     }
     fn rule(&self) -> String {
-        "redirect chains of 1..4 hops: original request (9 methods, 1.0/1.1) carries tagged Authorization, one or two Cookie fields and (body methods) Content-Length; Locations are drawn from absolute (original host same/other scheme, other hosts, ports incl. explicit default), scheme-relative, path-absolute, relative with ./ ../, query-only, empty, with fragment; all redirect statuses; both policies; the caller also attaches fresh cookies on later hops. Every request created by a redirect is serialised and parsed by the strict parser: a Cookie or Content-Length value tagged as the original's must never appear; the original Authorization may appear only if policy = SameHost and target host == original host and (target scheme == original scheme or https), the target being computed by an independent RFC 3986 resolver. class = hop index x host relation x scheme relation x policy. How often the credential was forwarded where allowed is reported as a statistic, not judged.".into()
+        "redirect chains of 1..4 hops: original request (9 methods, 1.0/1.1) carries tagged Authorization, one or two Cookie fields and (body methods) Content-Length; Locations are drawn from absolute (original host same/other scheme, other hosts, ports incl. explicit default), scheme-relative, path-absolute, relative with ./ ../, query-only, empty, with fragment; all redirect statuses; both policies; the caller also attaches fresh cookies on later hops. Every request created by a redirect is serialised and parsed by the strict parser: a Cookie or Content-Length value tagged as the original's must never appear; the original Authorization may appear only if policy = SameHost and target host == original host and (target scheme == original scheme or https), the target being computed by an independent RFC 3986 resolver. A third of the originals spell out their Host; redirected flows get send_body_despite_method() now and then (whatever framing they then carry must be their own). class = hop index x host relation x scheme relation x policy. How often the credential was forwarded where allowed is reported as a statistic, not judged.".into()
     }
     fn assumptions(&self) -> Vec<String> {
         vec![
@@ -178,6 +193,8 @@ impl Property for P {
         v.push(("hop1/same-host/same-scheme/never".into(), 20));
         v.push(("location-kind/abs-host-in-prefix-relation".into(), 100));
         v.push(("original/despite-method-with-content-length".into(), 100));
+        v.push(("redirected/despite-method".into(), 100));
+        v.push(("original/explicit-host".into(), 1000));
         v
     }
 }
